@@ -189,6 +189,30 @@ pub fn gen(out: &mut dyn Write, seed: u64, thorough: bool) {
         }
         writeln!(out, "M maxcap {} => {}", fmt_idx(l), vh::max_capacity(&sl)).unwrap();
     }
+    // the remaining list API: `contains`, `IntoIterator`, `From<[SymbolSize; N]>` against `iter()`
+    let mut api_checks = 0usize;
+    for l in &probe_lists {
+        let sl = wl(l);
+        let members: Vec<usize> = sl.iter().map(size_index).collect();
+        let mut ok = true;
+        for (i, s) in sizes.iter().enumerate() {
+            ok &= sl.contains(s) == members.contains(&i);
+        }
+        let owned: Vec<usize> = sl.clone().into_iter().map(size_index).collect();
+        ok &= owned == members;
+        if l.len() == 3 {
+            let arr = [sizes[l[0]], sizes[l[1]], sizes[l[2]]];
+            let from: SymbolList = arr.into();
+            ok &= from.iter().map(size_index).collect::<Vec<_>>() == members;
+        }
+        if l.len() == 1 {
+            let from: SymbolList = sizes[l[0]].into();
+            ok &= from.iter().map(size_index).collect::<Vec<_>>() == members;
+        }
+        api_checks += 1;
+        writeln!(out, "O oracle {} => ok", if ok { "ok".to_string() } else { format!("fail:symbol-list-api:{}", fmt_idx(l)) }).unwrap();
+    }
+    writeln!(out, "# symbol_list_api_checks {}", api_checks).unwrap();
     // the symbol picked for an encoding: ASCII-only encoder on n lowercase letters needs n codewords
     for l in &probe_lists {
         if l.is_empty() {
